@@ -383,6 +383,9 @@ impl Property for C12 {
                 }
             }
         }
+        if rng.chance(6) {
+            sc.cmds = gen::goto_machine(rng, true);
+        }
         // targeted family: the first program jumps (pending jump source, registered labels), then
         // `clear`, then a longer program that evaluates ♡ / the same label before jumping itself
         let mut stale_family = false;
